@@ -80,7 +80,8 @@ func genDoc(r *hx.Rng, format string) Doc {
 	n := 0
 	heading := func() {
 		n++
-		d.Blocks = append(d.Blocks, Block{Kind: "heading", Level: r.Range(1, 6), Text: genText(r, "Head", n)})
+		// every level the format can express, in every spelling its writer has
+		d.Blocks = append(d.Blocks, Block{Kind: "heading", Level: r.Range(1, MaxSourceLevel(format)), Via: r.Intn(HeadingVias(format)), Text: genText(r, "Head", n)})
 	}
 	para := func() {
 		n++
@@ -254,6 +255,26 @@ type docCase struct {
 	Index  int    `json:"index"`
 	Format string `json:"format"`
 	File   string `json:"file,omitempty"`
+	Opt    string `json:"opt,omitempty"` // heading sweep: the entry point / configuration that failed (replay runs the whole sweep of the file)
+}
+
+// dedupOps: inside the heading sweep one file is read ~140 times, so most correspondence pairs
+// repeat literally; a pair (op line, implementation output) that was already emitted is not
+// emitted again (an identical pair cannot change the diff with the Lean driver).
+var (
+	dedupOps bool
+	seenOps  = map[string]struct{}{}
+)
+
+func docOp(c *hx.Ctx, line, out string) {
+	if dedupOps {
+		k := line + "\x00" + out
+		if _, ok := seenOps[k]; ok {
+			return
+		}
+		seenOps[k] = struct{}{}
+	}
+	c.Op(line, out)
 }
 
 func runDocument(c *hx.Ctx, idx int, format string, keep bool) {
@@ -354,8 +375,8 @@ func checkDocument(c *hx.Ctx, format string, d Doc, o rag.MarkdownOptions, md st
 					}
 				}
 			}
-			c.Op(fmt.Sprintf("c15.hlvl %d %d %d", src, o.HeadingLevelOffset, o.MaxHeadingLevel), fmt.Sprint(got.Headings[i].Level))
-			c.Op("c15.atx "+hx.HexS(got.Headings[i].Raw), fmt.Sprintf("%d %s", got.Headings[i].Level, hx.HexS(got.Headings[i].Text)))
+			docOp(c, fmt.Sprintf("c15.hlvl %d %d %d", src, o.HeadingLevelOffset, o.MaxHeadingLevel), fmt.Sprint(got.Headings[i].Level))
+			docOp(c, "c15.atx "+hx.HexS(got.Headings[i].Raw), fmt.Sprintf("%d %s", got.Headings[i].Level, hx.HexS(got.Headings[i].Text)))
 		}
 	}
 	// --- lists ---
@@ -394,8 +415,8 @@ func checkDocument(c *hx.Ctx, format string, d Doc, o rag.MarkdownOptions, md st
 				if g.Ordered {
 					kind = "o"
 				}
-				c.Op(fmt.Sprintf("c15.list %d:%s:%d:%s", wantI[i].Depth, kind, g.Num, hx.HexS(g.Text)), hx.HexS(g.Raw))
-				c.Op("c15.listparse "+hx.HexS(g.Raw), fmt.Sprintf("%d %s %s", g.Depth, kind, hx.HexS(g.Text)))
+				docOp(c, fmt.Sprintf("c15.list %d:%s:%d:%s", wantI[i].Depth, kind, g.Num, hx.HexS(g.Text)), hx.HexS(g.Raw))
+				docOp(c, "c15.listparse "+hx.HexS(g.Raw), fmt.Sprintf("%d %s %s", g.Depth, kind, hx.HexS(g.Text)))
 			}
 		}
 	}
